@@ -58,6 +58,7 @@ SPEC = {
         'AITB.FLP.mdpLP_sound_flat',
         'AITB.FLP.factoredLP_same_optimum',
         'AITB.FLP.mdpLP_same_optimum',
+        'AITB.FLP.flp_verdict_sound',
         'AITB.FLP.dense_of_clean',
         'AITB.FLP.genLoop_clean',
         'AITB.FLP.flpGen_clean',
